@@ -43,6 +43,7 @@ def gen_case(rng):
     return {"n": n, "bases": bases, "vp": vp, "defs": defs,
             "container": rng.random() < 0.4,
             "per_class_reg": rng.random() < 0.3,
+            "reg_order": rng.sample(range(n), n),
             "style": rng.choice(["macro", "macro", "macro_inline", "use_next",
                                  "next_member",
                                  "next_alias", "add_function",
@@ -134,12 +135,12 @@ def emit(case):
             c, inh, c, c, c))
     if case.get("per_class_reg"):
         # one register_class per class, direct bases only, any order
-        for c in reversed(range(n)):
+        for c in case.get("reg_order", list(reversed(range(n)))):
             out.append("register_class(%s, pol);" % ", ".join(
                 ["K%d" % c] + ["K%d" % b for b in case["bases"][c]]))
     else:
         out.append("register_classes(%s, pol);" % ", ".join(
-            "K%d" % c for c in range(n)))
+            "K%d" % c for c in case.get("reg_order", range(n))))
     params = ["virtual_<K%d&>" % p for p in case["vp"]]
     if case["extra_int"]:
         params.insert(1 if len(params) > 1 else 0, "int")
